@@ -545,6 +545,10 @@ func (mi *muxInstance) serveHTTP(stdw http.ResponseWriter, stdr *http.Request) {
 func (mi *muxInstance) search(req *httpprot.Request) *route {
 	headerMismatch, methodMismatch := false, false
 
+	// cacheable is whether the routing result depends on nothing but the
+	// cache key, and thus could be put into the cache.
+	cacheable := true
+
 	ip := req.RealIP()
 
 	// The key of the cache is req.Host + req.Method + req.URL.Path,
@@ -587,13 +591,21 @@ func (mi *muxInstance) search(req *httpprot.Request) *route {
 				continue
 			}
 
-			// The path can be put into the cache if it has no headers.
+			// The path can be put into the cache if it has no headers, and
+			// no path with headers was met before it: such a path comes first
+			// for the requests which carry the headers it wants, and these
+			// requests have the same cache key.
 			if len(path.headers) == 0 {
-				r = &route{code: 0, path: path}
-				mi.putRouteToCache(req, r)
-			} else if !path.matchHeaders(req) {
-				headerMismatch = true
-				continue
+				if cacheable {
+					r = &route{code: 0, path: path}
+					mi.putRouteToCache(req, r)
+				}
+			} else {
+				cacheable = false
+				if !path.matchHeaders(req) {
+					headerMismatch = true
+					continue
+				}
 			}
 
 			if !allowIP(path.ipFilter, ip) {
